@@ -381,6 +381,9 @@ impl crate::traits::Transaction for SqliteStore {
         // processes now to begin a new transaction and acquire the permit.
         permit.mark_committed_and_drop();
 
+        #[cfg(p2panda_p2panda_verif)]
+        p2panda_core::verif::crash_point("store.after_commit");
+
         result
     }
 }
